@@ -128,6 +128,9 @@ class ActionContext(abc.ABC):
         """
         var_processor = VariableSetProcessor({}, self.var_cache, self.variable_config)
         variable_id, log_str = var_processor.process_variable(name, variable)
+        if variable_id.vid is None:
+            # the variable limit of the snapshot is used up, so the value was not recorded
+            return WatchResult(WATCH_SOURCE_CAPTURE, name, None, "max variables reached"), {}, log_str
 
         return WatchResult(WATCH_SOURCE_CAPTURE, name, variable_id), var_processor.var_lookup, log_str
 
